@@ -140,6 +140,16 @@ CLAIMS = {
         note="Trusted: the reference table in spverif/props/c16.py (documented behaviour; where the documentation is silent it records "
              "the documented meaning of 'all verifications received'); dictionary-key soundness of RequestId is C15's obligation.",
         technique="ast-based abstract interpretation (gated terms) + exhaustive finite case analysis of the extracted transition function + store-log alias analysis"),
+    "C17": dict(
+        text="Static analysis: header pack() per bit for the truncated header and each VCF-count length 0..7 (fields straddling "
+             "octets handled by bit provenance), decoders per bit with the structure octets concrete, reads in bounds and inside "
+             "7+n, version / header-type / range refusals; data field pack() for all 8 construction rules x truncated x frame type "
+             "against the pointer-presence table, len() against the layout, decoder extents; frame pack order header | insert zone | "
+             "data field | OCF | FECF, len() and set_frame_len_in_header against the layout; frame decoder offset chain for "
+             "fixed/variable/truncated frames with symbolic insert-zone and FECF sizes, and the USLP refusals.",
+        note="Trusted: reference layouts in spverif/props/c17.py (CCSDS 732.1-B-2 figures 4-2/4-3/4-5). Frame decoder analysed for 11 "
+             "managed-parameter configurations.",
+        technique=TECH + "; finite case analysis over VCF-count length, construction rules and managed parameters"),
 }
 
 NOT_CLAIMED = {}
